@@ -116,7 +116,7 @@ def rules(ctx: Ctx) -> None:
     prog = ctx.prog
     c, inst = find_loader(prog)
     containers = find_containers(prog, c)
-    ctx.floor("per-thread state containers created in the loader's __init__", len(containers), 2)
+    ctx.floor("per-thread state containers created in the loader's __init__", len(containers), 1)
     ident = find_ident_fn(prog, c)
     own = Own(prog, ident)
     cfgmod = c.mod
@@ -201,7 +201,7 @@ def rules(ctx: Ctx) -> None:
                 continue
             ctx.ob("R15.1", f"{keybase}:escapes", False, where,
                    f"`{u(par) if par is not None else u(n)}`: the shared container is used as a whole (iteration / copy / argument / alias)")
-    ctx.floor("container accesses outside __init__", accesses, 8)
+    ctx.floor("container accesses outside __init__", accesses, 6)
 
     # R15.1b no other shared mutable state written by the loader's methods
     for m in list(c.methods.values()) + list(c.setters.values()):
